@@ -102,7 +102,12 @@ def c07_random(r, tier):
         if tuple(f[:3]) not in seen:
             seen.add(tuple(f[:3]))
             uniq.append(f)
-    return c07_scenario(P, K, c, 0, force=uniq, nblocks=nblocks, pats=pats)
+    sc = c07_scenario(P, K, c, 0, force=uniq, nblocks=nblocks, pats=pats)
+    if P >= 2 and r.random() < 0.3:
+        # the last block is only partly filled (fewer active steps than num_procs)
+        sc['config']['run']['Tend'] -= r.randint(1, P - 1) * sc['config']['level']['dt']
+        sc['partial_last_block'] = True
+    return sc
 
 
 # ---------------------------------------------------------------------------------------------------------- C06
